@@ -63,7 +63,7 @@ def evParseEvent (ev : String) (cur old : Option Pod) : Option Event :=
   | ["tombbad"] => some .tombstoneOther
   | ["delbad"] => some .deleteOther
   | ["sadd", k] => (evParseKey k).map .setAdd
-  | ["supd", k, f] => if f == "0" || f == "1" then (evParseKey k).map .setUpdate else none
+  | ["supd", k, f] => if (f.toNat?.any (· < 64)) && f.length ≤ 2 && !(f.length == 2 && f.startsWith "0") then (evParseKey k).map .setUpdate else none
   | ["sdel", k] => (evParseKey k).map .setDelete
   | ["stomb", k] => (evParseKey k).map .setTombstone
   | _ => none
